@@ -195,6 +195,9 @@ def run_one(seed, preset=None, tier="quick", want_case=False):
     r["order"] = run_digest(sorted(orders))
     r["releases"], r["multi_choice"], r["vsec"] = tot["releases"], tot["multi"], tot["vsec"]
     r["metrics"]["distinct_release_orders_in_run"] = len(orders)
+    if viol:
+        from simv.model.document import doc_to_json
+        r["doc_model"] = doc_to_json(case.doc)
     if want_case or viol:
         c = case.render()
         c["faults"] = {repr(list(k)): v for k, v in faults.items()}
